@@ -73,8 +73,8 @@ PROPS = {
                 "non-trivial = some row has a non-A/C/G/T column",
     },
     "C04": {
-        "extra_imports": ["Gofasta.Props.ColsVariants", "Gofasta.Props.Cli", "Gofasta.Lemmas.VariantsOrder"],
-        "extra_theorems": ["Gofasta.Props.Cols.nucs_append", "Gofasta.Props.Cols.aas_append", "Gofasta.Props.Cli.variant_defaults", "Gofasta.Props.Cli.wiring", "Gofasta.Lemmas.VariantsOrder.variantLt_swo", "Gofasta.Lemmas.VariantsOrder.tied_variantLt", "Gofasta.Lemmas.VariantsOrder.indels_sort_eq", "Gofasta.Lemmas.VariantsOrder.specAll_no_del0", "Gofasta.Lemmas.VariantsOrder.adj_sort_eq_sort_all_iff", "Gofasta.Lemmas.VariantsOrder.model_eq", "Gofasta.Lemmas.VariantsOrder.old_variants_list_eq_iff", "Gofasta.Lemmas.VariantsOrder.dedupRun_sorted", "Gofasta.Lemmas.VariantsOrder.run_sort_eq_sort_all", "Gofasta.Lemmas.VariantsOrder.variants_nodup", "Gofasta.Lemmas.VariantsOrder.variants_sorted", "Gofasta.Lemmas.VariantsOrder.old_eq_new_iff", "Gofasta.Lemmas.VariantsOrder.variants_list_eq_of_nodup", "Gofasta.Lemmas.VariantsOrder.variants_list_eq", "Gofasta.Lemmas.VariantsOrder.variants_list_eq_of_le_one", "Gofasta.Lemmas.VariantsOrder.dedupAll_variants_eq", "Gofasta.Lemmas.VariantsOrder.variants_list_eq_iff_nodup", "Gofasta.Lemmas.VariantsOrder.cx_fixed", "Gofasta.Lemmas.VariantsOrder.cx2_fixed", "Gofasta.Lemmas.VariantsOrder.old_dedup_differs", "Gofasta.Lemmas.VariantsOrder.old_cx_differs", "Gofasta.Lemmas.VariantsOrder.cx_wellformed"],
+        "extra_imports": ["Gofasta.Props.Pipes", "Gofasta.Props.ColsVariants", "Gofasta.Props.Cli", "Gofasta.Lemmas.VariantsOrder"],
+        "extra_theorems": ["Gofasta.Props.Pipes.pools_have_workers", "Gofasta.Props.Cols.nucs_append", "Gofasta.Props.Cols.aas_append", "Gofasta.Props.Cli.variant_defaults", "Gofasta.Props.Cli.wiring", "Gofasta.Lemmas.VariantsOrder.variantLt_swo", "Gofasta.Lemmas.VariantsOrder.tied_variantLt", "Gofasta.Lemmas.VariantsOrder.indels_sort_eq", "Gofasta.Lemmas.VariantsOrder.specAll_no_del0", "Gofasta.Lemmas.VariantsOrder.adj_sort_eq_sort_all_iff", "Gofasta.Lemmas.VariantsOrder.model_eq", "Gofasta.Lemmas.VariantsOrder.old_variants_list_eq_iff", "Gofasta.Lemmas.VariantsOrder.dedupRun_sorted", "Gofasta.Lemmas.VariantsOrder.run_sort_eq_sort_all", "Gofasta.Lemmas.VariantsOrder.variants_nodup", "Gofasta.Lemmas.VariantsOrder.variants_sorted", "Gofasta.Lemmas.VariantsOrder.old_eq_new_iff", "Gofasta.Lemmas.VariantsOrder.variants_list_eq_of_nodup", "Gofasta.Lemmas.VariantsOrder.variants_list_eq", "Gofasta.Lemmas.VariantsOrder.variants_list_eq_of_le_one", "Gofasta.Lemmas.VariantsOrder.dedupAll_variants_eq", "Gofasta.Lemmas.VariantsOrder.variants_list_eq_iff_nodup", "Gofasta.Lemmas.VariantsOrder.cx_fixed", "Gofasta.Lemmas.VariantsOrder.cx2_fixed", "Gofasta.Lemmas.VariantsOrder.old_dedup_differs", "Gofasta.Lemmas.VariantsOrder.old_cx_differs", "Gofasta.Lemmas.VariantsOrder.cx_wellformed"],
         "cli": True,
         "streams": {"C04": (400, 6000)},
         "thorough_seeds": 3,
@@ -197,7 +197,7 @@ PROPS = {
         "extra_imports": ["Gofasta.Lemmas.FanoutCommands", "Gofasta.Lemmas.FanoutProofs", "Gofasta.Lemmas.SchedCommands", "Gofasta.Lemmas.AggVariants", "Gofasta.Props.Pipes", "Gofasta.Lemmas.SchedProofs", "Gofasta.Lemmas.SchedChainProofs"],
         "extra_theorems": ["Gofasta.Lemmas.FanoutCommands.closest_every_schedule", "Gofasta.Lemmas.FanoutCommands.closestN_every_schedule", "Gofasta.Lemmas.FanoutCommands.topranking_every_schedule", "Gofasta.Lemmas.FanoutCommands.topa_stdout_every_schedule", "Gofasta.Lemmas.FanoutCommands.topa_dir_every_schedule", "Gofasta.Lemmas.FanoutCommands.topa_dir_last_arrival", "Gofasta.Lemmas.FanoutCommands.closest_maximal_run", "Gofasta.Lemmas.FanoutCommands.closestN_maximal_run", "Gofasta.Lemmas.FanoutCommands.topranking_maximal_run", "Gofasta.Lemmas.Fanout.fanout_in_order", "Gofasta.Lemmas.Fanout.fanout_lockstep", "Gofasta.Lemmas.Fanout.fanout_slot", "Gofasta.Lemmas.Fanout.fanout_result", "Gofasta.Lemmas.Fanout.fanout_result_eq", "Gofasta.Lemmas.Fanout.fanout_no_deadlock", "Gofasta.Lemmas.Fanout.no_panic", "Gofasta.Lemmas.Fanout.buffer_bounded", "Gofasta.Lemmas.Fanout.fanout_terminates", "Gofasta.Lemmas.Fanout.fanout_maximal_run", "Gofasta.Lemmas.Fanout.runSchedule_returns", "Gofasta.Lemmas.Fanout.Demo.stepTwoForwarders_schedule_dependent", "Gofasta.Lemmas.SchedCommands.text_writer_every_schedule", "Gofasta.Lemmas.SchedCommands.chain_text_writer_every_schedule", "Gofasta.Lemmas.SchedCommands.snps_every_schedule", "Gofasta.Lemmas.SchedCommands.snps_aggregate_every_schedule", "Gofasta.Lemmas.SchedCommands.updown_list_every_schedule", "Gofasta.Lemmas.SchedCommands.toma_every_schedule", "Gofasta.Lemmas.SchedCommands.variants_every_schedule", "Gofasta.Lemmas.SchedCommands.variants_aggregate_every_schedule", "Gofasta.Lemmas.SchedCommands.variants_aggregate_model_every_schedule", "Gofasta.Lemmas.SchedCommands.sam_variants_every_schedule", "Gofasta.Lemmas.SchedCommands.sam_variants_command_every_schedule", "Gofasta.Lemmas.SchedCommands.sam_variants_aggregate_every_schedule", "Gofasta.Lemmas.SchedCommands.sam_variants_every_schedule_rows", "Gofasta.Lemmas.SchedCommands.snps_maximal_run", "Gofasta.Lemmas.SchedCommands.snps_aggregate_maximal_run", "Gofasta.Lemmas.SchedCommands.updown_list_maximal_run", "Gofasta.Lemmas.SchedCommands.toma_maximal_run", "Gofasta.Lemmas.SchedCommands.variants_maximal_run", "Gofasta.Lemmas.SchedCommands.sam_variants_maximal_run", "Gofasta.Lemmas.SchedChain.reach_inv", "Gofasta.Lemmas.SchedChain.chain_success_means_complete", "Gofasta.Lemmas.SchedChain.chain_reorder_writer_in_order", "Gofasta.Lemmas.SchedChain.chain_commutative_writer", "Gofasta.Lemmas.SchedChain.chain_no_deadlock", "Gofasta.Lemmas.SchedChain.chain_terminates", "Gofasta.Lemmas.SchedChain.chain_maximal_run_returned", "Gofasta.Lemmas.SchedChain.chain_error_reported", "Gofasta.Lemmas.SchedChain.chain_maximal_run_error", "Gofasta.Lemmas.SchedChain.chain_error_has_source", "Gofasta.Lemmas.SchedChain.chain_no_spurious_error", "Gofasta.Lemmas.SchedChain.chain_maximal_run_success", "Gofasta.Lemmas.SchedChain.chain_no_panic", "Gofasta.Lemmas.SchedChain.chain_no_send_on_closed", "Gofasta.Lemmas.SchedChain.chain_no_sender_on_closed", "Gofasta.Lemmas.SchedChain.chain_buffers_bounded", "Gofasta.Lemmas.SchedChain.chain_closed_prefix", "Gofasta.Lemmas.SchedChain.runSchedule_returns", "Gofasta.Lemmas.SchedChain.OnePool.chain_one_pool_agrees", "Gofasta.Lemmas.SchedChain.OnePool.chain_one_pool_outcomes",
                            "Gofasta.Lemmas.Sched.reach_inv", "Gofasta.Lemmas.Sched.success_means_complete", "Gofasta.Lemmas.Sched.reorder_writer_in_order", "Gofasta.Lemmas.Sched.commutative_writer", "Gofasta.Lemmas.Sched.counting_writer", "Gofasta.Lemmas.Sched.no_deadlock", "Gofasta.Lemmas.Sched.maximal_run_returned", "Gofasta.Lemmas.Sched.terminates", "Gofasta.Lemmas.Sched.run_length_le", "Gofasta.Lemmas.Sched.runSchedule_returns", "Gofasta.Lemmas.Sched.error_reported", "Gofasta.Lemmas.Sched.maximal_run_error", "Gofasta.Lemmas.Sched.error_has_source", "Gofasta.Lemmas.Sched.no_spurious_error", "Gofasta.Lemmas.Sched.maximal_run_success", "Gofasta.Lemmas.Sched.no_panic", "Gofasta.Lemmas.Sched.no_send_on_closed", "Gofasta.Lemmas.Sched.close_once", "Gofasta.Lemmas.Sched.buffers_bounded",
-                           "Gofasta.Props.Pipes.drivers_conform", "Gofasta.Props.Pipes.fanouts_conform", "Gofasta.Props.Pipes.inner_error_arms", "Gofasta.Lemmas.AggVariants.variants_aggregate_model_deterministic", "Gofasta.Lemmas.AggVariants.variants_aggregate_any_order",
+                           "Gofasta.Props.Pipes.drivers_conform", "Gofasta.Props.Pipes.fanouts_conform", "Gofasta.Props.Pipes.pools_have_workers", "Gofasta.Props.Pipes.inner_error_arms", "Gofasta.Lemmas.AggVariants.variants_aggregate_model_deterministic", "Gofasta.Lemmas.AggVariants.variants_aggregate_any_order",
                            "Gofasta.Lemmas.AggVariants.aggLt_not_swo", "Gofasta.Lemmas.AggVariants.tie_hypothesis_needed"],
         "streams": {"C12": (64, 400), "C12sched": (400, 4000)},
         "thorough_seeds": 3,
@@ -205,7 +205,7 @@ PROPS = {
         "race": (24, 150),
         "rule": "16 command variants (snps, snps --aggregate, variants per-sequence / --aggregate / GFF features sharing a start, sam toMultiAlign, toPairAlign to a "
                 "directory and -o stdout through the binary, sam variants per-sequence / --aggregate, closest, closest -n --table, updown list, topranking size / push / csv) "
-                "on inputs of 20-80 records; each case = 5 (quick) or 12 (thorough) runs of the real code with --threads in 1..16, GOMAXPROCS in 1..16 and a fresh seed of the "
+                "on inputs of 20-80 records; each case = 5 (quick) or 12 (thorough) runs of the real code with --threads in 1..16 and, since finding F-C12e, 0 and -1 (meaning one worker per processor), GOMAXPROCS in 1..16 and a fresh seed of the "
                 "verif Jitter hook (sleep/yield before every worker's send); all runs must be byte-identical and none may fail; the same stream is repeated under a "
                 "-race build; non-trivial = every case (each compares several schedules); tag jitter-inverted-an-order = the hook observed an order inversion; "
                 "stream C12sched: snps / updown list / variants in-process on 1-300 records with a failure planted in the reader (bad symbol in record k), the workers "
@@ -215,7 +215,7 @@ PROPS = {
     },
     "C18": {
         "extra_imports": ["Gofasta.Lemmas.SchedCommands", "Gofasta.Props.ColsSam", "Gofasta.Lemmas.Refusals", "Gofasta.Props.Cli", "Gofasta.Props.Pipes", "Gofasta.Lemmas.SchedProofs", "Gofasta.Lemmas.SchedChainProofs"],
-        "extra_theorems": ["Gofasta.Lemmas.SchedCommands.snps_width_error_reported", "Gofasta.Lemmas.SchedCommands.snps_aggregate_width_error_reported", "Gofasta.Lemmas.SchedCommands.updown_list_width_error_reported", "Gofasta.Lemmas.SchedCommands.variants_width_error_reported", "Gofasta.Lemmas.SchedCommands.variants_aggregate_width_error_reported", "Gofasta.Lemmas.SchedCommands.toma_read_error_reported", "Gofasta.Lemmas.SchedCommands.sam_variants_read_error_reported", "Gofasta.Lemmas.SchedCommands.snps_outcome", "Gofasta.Lemmas.SchedCommands.updown_list_outcome", "Gofasta.Lemmas.SchedCommands.variants_outcome", "Gofasta.Props.Cols.checkArgs_translated", "Gofasta.Lemmas.SchedChain.chain_error_reported", "Gofasta.Lemmas.SchedChain.chain_no_deadlock", "Gofasta.Lemmas.Sched.error_reported", "Gofasta.Lemmas.Sched.maximal_run_error", "Gofasta.Lemmas.Sched.no_deadlock", "Gofasta.Props.Pipes.drivers_conform", "Gofasta.Lemmas.Refusals.fails_unequal_rows", "Gofasta.Lemmas.Refusals.readFasta_unequal_rows", "Gofasta.Lemmas.Refusals.readFasta_ok_widths", "Gofasta.Lemmas.Refusals.trailing_header_refused", "Gofasta.Lemmas.Refusals.trailing_header_commands_refused", "Gofasta.Lemmas.Refusals.fails_trailing_header", "Gofasta.Lemmas.Refusals.fails_single_header", "Gofasta.Lemmas.Refusals.snpsOnText_error_iff", "Gofasta.Lemmas.Refusals.listOnText_error_iff", "Gofasta.Lemmas.Refusals.trOnText_error_iff", "Gofasta.Lemmas.Refusals.closestOnText_error_iff", "Gofasta.Lemmas.Refusals.varCommand_error_iff", "Gofasta.Lemmas.Refusals.snpsOnText_valid", "Gofasta.Lemmas.Refusals.listOnText_valid", "Gofasta.Lemmas.Refusals.trOnText_valid", "Gofasta.Lemmas.Refusals.checkArgs_none_iff", "Gofasta.Props.Cli.topranking_defaults", "Gofasta.Props.Cli.window_defaults", "Gofasta.Props.Cli.wiring"],
+        "extra_theorems": ["Gofasta.Props.Pipes.pools_have_workers", "Gofasta.Lemmas.SchedCommands.snps_width_error_reported", "Gofasta.Lemmas.SchedCommands.snps_aggregate_width_error_reported", "Gofasta.Lemmas.SchedCommands.updown_list_width_error_reported", "Gofasta.Lemmas.SchedCommands.variants_width_error_reported", "Gofasta.Lemmas.SchedCommands.variants_aggregate_width_error_reported", "Gofasta.Lemmas.SchedCommands.toma_read_error_reported", "Gofasta.Lemmas.SchedCommands.sam_variants_read_error_reported", "Gofasta.Lemmas.SchedCommands.snps_outcome", "Gofasta.Lemmas.SchedCommands.updown_list_outcome", "Gofasta.Lemmas.SchedCommands.variants_outcome", "Gofasta.Props.Cols.checkArgs_translated", "Gofasta.Lemmas.SchedChain.chain_error_reported", "Gofasta.Lemmas.SchedChain.chain_no_deadlock", "Gofasta.Lemmas.Sched.error_reported", "Gofasta.Lemmas.Sched.maximal_run_error", "Gofasta.Lemmas.Sched.no_deadlock", "Gofasta.Props.Pipes.drivers_conform", "Gofasta.Lemmas.Refusals.fails_unequal_rows", "Gofasta.Lemmas.Refusals.readFasta_unequal_rows", "Gofasta.Lemmas.Refusals.readFasta_ok_widths", "Gofasta.Lemmas.Refusals.trailing_header_refused", "Gofasta.Lemmas.Refusals.trailing_header_commands_refused", "Gofasta.Lemmas.Refusals.fails_trailing_header", "Gofasta.Lemmas.Refusals.fails_single_header", "Gofasta.Lemmas.Refusals.snpsOnText_error_iff", "Gofasta.Lemmas.Refusals.listOnText_error_iff", "Gofasta.Lemmas.Refusals.trOnText_error_iff", "Gofasta.Lemmas.Refusals.closestOnText_error_iff", "Gofasta.Lemmas.Refusals.varCommand_error_iff", "Gofasta.Lemmas.Refusals.snpsOnText_valid", "Gofasta.Lemmas.Refusals.listOnText_valid", "Gofasta.Lemmas.Refusals.trOnText_valid", "Gofasta.Lemmas.Refusals.checkArgs_none_iff", "Gofasta.Props.Cli.topranking_defaults", "Gofasta.Props.Cli.window_defaults", "Gofasta.Props.Cli.wiring"],
         "streams": {"C18": (1000, 4000)},
         "thorough_seeds": 3,
         "cli": True,
